@@ -180,25 +180,48 @@ def value_sources(func: Func, expr: ast.AST, at: Optional[ast.AST] = None, depth
 
 def loop_carried(func: Func, loop_stmt: ast.AST, ignore: Set[str] = frozenset()) -> List[Tuple[str, ast.AST, ast.AST]]:
     """(name, use, defining statement) for every name read inside ``loop_stmt``'s body whose value may
-    come from a *previous* iteration of that loop (a definition inside the body that reaches the
-    use only around the back edge)."""
+    come from a *previous* iteration of that loop: a definition inside the body that reaches the loop
+    header along a back edge and, from the header, a use in the body without being overwritten first
+    (inner loops are followed, so a value carried by an inner loop across the outer back edge counts)."""
     full = reaching(func)
-    h = full.cfg.node(loop_stmt)
-    cut = ReachingDefs(func, cut_backedges_to=h)
-    body = full.cfg.stmts_in_loop(loop_stmt)
-    out = []
+    cfg = full.cfg
+    h = cfg.node(loop_stmt)
+    body = cfg.stmts_in_loop(loop_stmt)
+    g = cfg.g
+    # definitions made in the body that arrive at the header over a back edge
+    arriving = set()
+    for p in g.predecessors(h):
+        if p in body:
+            arriving |= {d for d in full.OUT[p] if d[1] in body}
+    # the header itself (a `for` target) kills the names it binds
+    arriving = {d for d in arriving if d[0] not in full.gen[h] and d[0] not in ignore}
+    if not arriving:
+        return []
+    # forward propagation of exactly these facts from the header through the body (outer back edges cut)
+    IN: Dict[int, set] = {n: set() for n in body}
+    work = []
+    for s_ in g.successors(h):
+        if s_ in body:
+            IN[s_] |= arriving
+            work.append(s_)
+    while work:
+        n = work.pop()
+        out = {d for d in IN[n] if d[0] not in full.gen[n]}
+        for s_ in g.successors(n):
+            if s_ in body and s_ != h and not out <= IN[s_]:
+                IN[s_] |= out
+                work.append(s_)
+    res = []
     seen = set()
     for n in body:
-        a = full.cfg.ast_of(n)
-        if a is None:
+        a = cfg.ast_of(n)
+        if a is None or not IN[n]:
             continue
-        for sub in _header_nodes(a, full.cfg.kind(n)):
+        for sub in _header_nodes(a, cfg.kind(n)):
             for x in ast.walk(sub):
                 if isinstance(x, ast.Name) and isinstance(x.ctx, ast.Load) and x.id not in ignore:
-                    fd = {d for d in full.IN[n] if d[0] == x.id}
-                    cd = {d for d in cut.IN[n] if d[0] == x.id}
-                    for (nm, dn) in fd - cd:
-                        if dn in body and (nm, dn, n) not in seen:
+                    for (nm, dn) in IN[n]:
+                        if nm == x.id and (nm, dn, n) not in seen:
                             seen.add((nm, dn, n))
-                            out.append((nm, x, full.cfg.ast_of(dn)))
-    return out
+                            res.append((nm, x, cfg.ast_of(dn)))
+    return res
